@@ -61,9 +61,9 @@ ASSUMPTIONS = [
     "are always given their application (the loaders index the key unconditionally)",
     "parse without memory type: the result is compared when the memory type it reports has the same segment table, otherwise only success is required",
 ]
-FLOORS = {"init>0": 0.15, "segs>=2": 0.12, "parse:mem_type": 0.60, "parse:no_mem_type": 0.25, "app:mbi": 0.10, "app:hab": 0.10, "app:ahab": 0.08,
-          "floating": 0.03, "pattern:ones": 0.01, "size:short": 0.015, "size:over": 0.007, "init_as:name": 0.04, "form:yaml": 0.01,
-          "fcb:foreign": 0.005, "xmcd:flexspi_ram/full": 0.005}
+FLOORS = {"init>0": 0.075, "segs>=2": 0.06, "parse:mem_type": 0.3, "parse:no_mem_type": 0.125, "app:mbi": 0.05, "app:hab": 0.05, "app:ahab": 0.04,
+          "floating": 0.015, "pattern:ones": 0.005, "size:short": 0.0075, "size:over": 0.0035, "init_as:name": 0.02, "form:yaml": 0.005,
+          "fcb:foreign": 0.0025, "xmcd:flexspi_ram/full": 0.0025}
 
 FIX = os.path.join(VERIF_DIR, "fixtures", "c14")
 HAB_FILES = ("hab_rt1024_9606.bin", "hab_rt1064_11060.bin")
